@@ -226,7 +226,7 @@ class Run:
             samples.append({"op": op, "args": [core.dec(a) if _is_atom(a) else a for a in args], "both": model[-1]})
         self.cov["correspondence"] = {
             "cases": len(cases), "corpus": ncorpus, "distinct_nontrivial": len(distinct),
-            "mismatches": len(mismatches), "distribution": dict(dist.most_common(60)),
+            "mismatches": len(mismatches), "distribution": dict(dist.most_common(getattr(p, "dist_limit", 60))),
         }
         self.cov["samples"] = samples
         if mismatches:
